@@ -462,7 +462,8 @@ class SqlImpl(TableImpl):
                 query.limit = nd.n
                 query.offset = nd.offset
             else:
-                query.limit = min(abs(query.limit - nd.offset), nd.n)
+                # of the `query.limit` rows, `nd.offset` are skipped
+                query.limit = min(max(query.limit - nd.offset, 0), nd.n)
                 query.offset += nd.offset
 
         elif isinstance(nd, verbs.GroupBy):
